@@ -359,12 +359,30 @@ func exec(s *Scenario, guard bool) (ms []core.Mismatch, onlys []string) {
 			// (only in the growing direction: eroding in two steps past the inradius of a small contour leaves an inverted
 			// contour on the unchanged library, see notes/C04.md round 6)
 			if grow == 1 && (s.Only == "" || s.Only == sign+"2") {
+				// observable of the history: the first call returned more than one contour (growing a non-convex contour can
+				// enclose a hole); the second call then shrinks that hole, see known finding "+intermediate-hole"
+				tag := "offset-twice" + sign + o
+				latgeo.Try(func() {
+					fastMu.RLock()
+					defer fastMu.RUnlock()
+					if segs, err := oracle.Decode(build(s).Offset(d/2, 0.01*scale).Data()); err == nil {
+						n := 0
+						for _, g := range segs {
+							if g.Cmd == oracle.CmdMove {
+								n++
+							}
+						}
+						if n > 1 {
+							tag += "+intermediate-hole"
+						}
+					}
+				})
 				run("Offset("+sign+"/2) twice", func() *canvas.Path {
 					fastMu.RLock()
 					defer fastMu.RUnlock()
 					return build(s).Offset(d/2, 0.01*scale).Offset(d/2, 0.01*scale)
 				},
-					func(f int) int { return s.H.OffTable[grow][f] }, "offset-twice"+sign+o, sign+"2")
+					func(f int) int { return s.H.OffTable[grow][f] }, tag, sign+"2")
 			}
 		}
 		return
